@@ -140,6 +140,7 @@ pub fn drive(name: &str, out: &str, args: &[String]) {
         "recv" => recv_driver(out, seed, arg(args, 1, 50)),
         "staked" => staked_driver(out, seed, arg(args, 1, 50)),
         "kamino" => kamino_driver(out, seed, arg(args, 1, 30)),
+        "drift" => drift_driver(out, seed, arg(args, 1, 30)),
         _ => {
             eprintln!("unknown driver {}", name);
             std::process::exit(2);
@@ -1911,6 +1912,7 @@ fn kamino_driver(out: &str, seed: u64, n: u64) {
         let mut debt = 0u64;
         if let Some((lo, hi)) = search_boundary(&mut r, &mkb, 2_000_000_000_000_000, "RiskEngineInitRejected") {
             r.act(mkb(hi));
+            let keep = rng.gen_bool(0.6);
             if lo > 0 {
                 let small = (lo / 2).max(1);
                 r.fork(&mut |r: &mut Recorder| {
@@ -2007,5 +2009,156 @@ fn kamino_driver(out: &str, seed: u64, n: u64) {
         }
     }
     eprintln!("kamino driver: {} scenarios, {} borrow boundaries, {} withdraw boundaries, {} events", n, nb, nw, r.events);
+    r.finish();
+}
+
+// ------------------------------------------------------------------------------------------------
+// drift driver (C02 C03 C04 C08 C09 C16): the Drift integration instructions on the stand-in venue.
+// Spot markets with different cumulative interest and decimals, a bank per market, venue users
+// initialised; deposits, bisected borrow limits against venue collateral (scaled balances, nine
+// decimals), stale markets until refreshed in the same transaction, venue interest, substituted
+// venue accounts, the withdraw rounding cases (exact balance, one scaled unit above, everything),
+// and the eight-position cap shared with Kamino positions.
+// ------------------------------------------------------------------------------------------------
+fn drift_driver(out: &str, seed: u64, n: u64) {
+    let mut rng = StdRng::seed_from_u64(seed);
+    let mut setup = base_setup();
+    setup.extend(vec![
+        json!({"op":"add_mint","mint":"MD","decimals":6,"kind":"spl"}),
+        json!({"op":"add_bank","group":"G1","bank":"BD","mint":"MD","cfg":{"lw_init":"1.25","lw_maint":"1.125"}}),
+        json!({"op":"set_fixed_price","bank":"BD","price":1}),
+        json!({"op":"fund","user":"U9","mint":"MD","amount":"4000000000000000"}),
+        json!({"op":"deposit","acct":"LP","bank":"BD","amount":"3000000000000000"}),
+    ]);
+    let mut r = Recorder::new(&format!("{}/drift.trace", out), setup);
+    let (mut nb, mut nw) = (0u64, 0u64);
+    for k in 0..n {
+        let with_kamino = k % 3 == 0;
+        let mut extra = vec![];
+        let mut deps: Vec<u64> = vec![];
+        for i in 1..=2u64 {
+            let dec: u64 = *pick(&mut rng, &[6u64, 6, 9, 8]);
+            let cum: u128 = *pick(&mut rng, &[10_000_000_000u128, 11_000_000_000, 10_000_000_001, 27_182_818_284, 10_345_678_901]);
+            let price: i64 = *pick(&mut rng, &[1_000_000i64, 150_000_000, 3_456, 99_999_999]);
+            extra.push(json!({"op":"add_mint","mint":format!("MR{}", i),"decimals":dec,"kind":*pick(&mut rng, &["spl", "spl", "t22"])}));
+            extra.push(json!({"op":"set_oracle","oracle":format!("OR{}", i),"kind":"pyth","price":price,"conf":(price as f64 * *pick(&mut rng, &[0.0f64, 0.001, 0.02])) as i64,"expo":-6}));
+            extra.push(json!({"op":"add_drift_market","market":format!("DM{}", i),"mint":format!("MR{}", i),"index":i,"cum":cum.to_string()}));
+            let (awi, awm) = *pick(&mut rng, &[("0.8", "0.9"), ("0.5", "0.65"), ("0.95", "0.97"), ("1", "1")]);
+            extra.push(json!({"op":"add_bank_drift","group":"G1","bank":format!("DB{}", i),"market":format!("DM{}", i),"oracle":format!("OR{}", i),"setup":9,"seed":0,
+                              "cfg":{"aw_init":awi,"aw_maint":awm,"oracle_max_age":60}}));
+            extra.push(json!({"op":"fund","user":"payer","mint":format!("MR{}", i),"amount":"1000000"}));
+            extra.push(json!({"op":"drift_init_user","bank":format!("DB{}", i),"amount":*pick(&mut rng, &[10u64, 100, 999])}));
+            extra.push(json!({"op":"fund","user":"U1","mint":format!("MR{}", i),"amount":"4000000000000000"}));
+            deps.push(*pick(&mut rng, &[1_000u64, 1_000_000, 123_456_789, 50_000_000_000]));
+        }
+        if with_kamino {
+            for i in 1..=8u64 {
+                extra.push(json!({"op":"add_mint","mint":format!("MK{}", i),"decimals":6,"kind":"spl"}));
+                extra.push(json!({"op":"set_oracle","oracle":format!("OK{}", i),"kind":"pyth","price":1_000_000,"conf":0,"expo":-6}));
+                extra.push(json!({"op":"add_kamino_reserve","reserve":format!("KR{}", i),"mint":format!("MK{}", i),"market":"KM1","avail":"1000000000","supply":"900000000","borrowed":0}));
+                extra.push(json!({"op":"add_bank_kamino","group":"G1","bank":format!("KB{}", i),"reserve":format!("KR{}", i),"oracle":format!("OK{}", i),"setup":6,"seed":0}));
+                extra.push(json!({"op":"fund","user":"payer","mint":format!("MK{}", i),"amount":"1000000"}));
+                extra.push(json!({"op":"kamino_init_obligation","bank":format!("KB{}", i),"amount":10}));
+                extra.push(json!({"op":"fund","user":"U1","mint":format!("MK{}", i),"amount":"1000000000"}));
+            }
+        }
+        r.begin(&extra);
+        r.act(json!({"op":"drift_init_user","bank":"DB1","amount":100}));                       // twice
+        r.act(json!({"op":"add_bank_drift","group":"G1","bank":"DBX","market":"DM1","oracle":"OR1","setup":3,"seed":5}));
+        r.act(json!({"op":"add_bank_drift","group":"G1","bank":"DBX","market":"DM1","mint":"MD","oracle":"OR1","setup":9,"seed":5}));
+        r.act(json!({"op":"add_bank_drift","group":"G1","bank":"DBX","market":"DM1","oracle":"OR1","setup":9,"seed":5,"signer":"stranger"}));
+        r.act(json!({"op":"add_bank_drift","group":"G1","bank":"DBY","market":"DM1","oracle":"OR1","setup":9,"seed":6,"cfg":{"op_state":0,"aw_init":"0.9","aw_maint":"0.5"}}));
+        if with_kamino {
+            // eight positions of one integration, then one of the other: the cap is shared
+            for i in 1..=8 {
+                r.act(json!({"op":"kamino_deposit","acct":"A1","bank":format!("KB{}", i),"amount":1000 + i}));
+            }
+            r.act(json!({"op":"drift_deposit","acct":"A1","bank":"DB1","amount":deps[0]}));
+            r.act(json!({"op":"kamino_withdraw","acct":"A1","bank":"KB2","amount":0,"all":true}));
+            r.act(json!({"op":"drift_deposit","acct":"A1","bank":"DB1","amount":deps[0]}));
+            r.act(json!({"op":"drift_deposit","acct":"A1","bank":"DB2","amount":deps[1]}));
+            r.act(json!({"op":"pulse_health","acct":"A1"}));
+            continue;
+        }
+        r.act(json!({"op":"deposit","acct":"A1","bank":"DB1","amount":5}));
+        r.act(json!({"op":"drift_deposit","acct":"A1","bank":"DB1","amount":0}));
+        r.act(json!({"op":"drift_deposit","acct":"A1","bank":"DB1","amount":deps[0]}));
+        r.act(json!({"op":"drift_deposit","acct":"A1","bank":"DB1","amount":deps[0] / 3 + 1,"signer":"stranger"}));
+        r.act(json!({"op":"withdraw","acct":"A1","bank":"DB1","amount":1}));
+        for sub in [json!({"market_acct":"DM2"}), json!({"user":"DB2.duser"}), json!({"stats":"DB2.dstats"}), json!({"market_vault":"DM2.vault"})] {
+            let mut a = json!({"op":"drift_deposit","acct":"A1","bank":"DB1","amount":10});
+            for (kk, v) in sub.as_object().unwrap() {
+                a[kk] = v.clone();
+            }
+            r.act(a);
+        }
+        // borrow limit against the venue collateral
+        let mkb = |x: u64| json!({"op":"borrow","acct":"A1","bank":"BD","amount":x});
+        let mut debt = 0u64;
+        if let Some((lo, hi)) = search_boundary(&mut r, &mkb, 2_000_000_000_000_000, "RiskEngineInitRejected") {
+            r.act(mkb(hi));
+            let keep = rng.gen_bool(0.6);
+            if lo > 0 {
+                let small = (lo / 2).max(1);
+                r.fork(&mut |r: &mut Recorder| {
+                    let mut a = mkb(small);
+                    a["oracle_sub_slots"] = json!({"DB1": {"1": "DM2"}});
+                    r.act(a);
+                });
+                let now = r.ex.env.world.clock.unix_timestamp;
+                for back in [0i64, 1, 2] {
+                    r.fork(&mut |r: &mut Recorder| {
+                        r.act(json!({"op":"set_drift_market","market":"DM1","ts":now - back}));
+                        r.act(mkb(small));
+                    });
+                }
+                if keep && r.act(mkb(lo))["res"] == "ok" {
+                    debt = lo;
+                    nb += 1;
+                }
+            }
+        }
+        // time passes: the market's interest is stale until somebody brings it up to date
+        r.act(json!({"op":"tick","dt": *pick(&mut rng, &[1i64, 10, 3600])}));
+        r.act(mkb(1));
+        let refreshed = |a: Value| json!({"op":"tx","ixs":[{"op":"drift_refresh","market":"DM1"},{"op":"drift_refresh","market":"DM2"}, a]});
+        r.act(refreshed(mkb(1)));
+        // venue interest
+        if rng.gen_bool(0.6) {
+            r.act(json!({"op":"set_drift_market","market":"DM1","cum":*pick(&mut rng, &["12000000000", "10000000007", "30000000000"]),"refresh":true,
+                         "vault_add":*pick(&mut rng, &[0u64, 400_000_000_000, 400_000_000_000])}));
+        }
+        r.act(refreshed(json!({"op":"pulse_health","acct":"A1"})));
+        // withdrawals: around the exact balance, up to the health limit, everything
+        let shares: u64 = asset_amount(&mut r, "A1", "DB1").map(|x| x.to_num::<u128>().min(u64::MAX as u128) as u64).unwrap_or(0);
+        let mkw = |x: u64| json!({"op":"drift_withdraw","acct":"A1","bank":"DB1","amount":x});
+        if debt == 0 && shares > 0 {
+            // token amounts whose scaled decrement lands on the balance, one above and two above it
+            if let Some((lo, hi)) = search_boundary(&mut r, &mkw, deps[0].saturating_mul(4), "OperationWithdrawOnly") {
+                for x in [hi.saturating_add(1), hi, lo] {
+                    r.fork(&mut |r: &mut Recorder| {
+                        r.act(mkw(x));
+                        r.act(json!({"op":"drift_withdraw","acct":"A1","bank":"DB1","amount":0,"all":true}));
+                    });
+                }
+            }
+            r.act(json!({"op":"drift_withdraw","acct":"A1","bank":"DB1","amount":0,"all":true}));
+            r.act(json!({"op":"drift_withdraw","acct":"A1","bank":"DB1","amount":0,"all":true}));
+        } else if debt > 0 {
+            let mkwr = |x: u64| refreshed(mkw(x));
+            // (the health limit lies below the balance limit: search below the latter)
+            let top = search_boundary(&mut r, &mkwr, deps[0].saturating_mul(4), "OperationWithdrawOnly").map(|(lo, _)| lo).unwrap_or(deps[0]);
+            if let Some((wlo, whi)) = search_boundary(&mut r, &mkwr, top.max(2), "RiskEngineInitRejected") {
+                r.act(mkwr(whi));
+                if wlo > 0 && r.act(mkwr(wlo))["res"] == "ok" {
+                    nw += 1;
+                }
+            } else {
+                r.act(mkwr(1));
+            }
+            r.act(refreshed(json!({"op":"drift_withdraw","acct":"A1","bank":"DB1","amount":0,"all":true})));
+        }
+    }
+    eprintln!("drift driver: {} scenarios, {} borrow boundaries, {} withdraw boundaries, {} events", n, nb, nw, r.events);
     r.finish();
 }
